@@ -21,6 +21,7 @@ def main():
     meta = json.load(open(os.path.join(d, "meta.json")))
     props = [meta["property"]]
     tier = "quick"
+    full = "--full" in sys.argv
     a = sys.argv[2:]
     for i, x in enumerate(a):
         if x == "--props":
@@ -50,7 +51,9 @@ def main():
     try:
         for p in props:
             t0 = time.time()
-            r = sh([os.path.join(ROOT, "check"), p, "--tier", tier], cwd=ROOT)
+            # fail-fast: stop once a couple of dozen unknown violations were seen (--full: whole workload)
+            env = dict(os.environ) if full else dict(os.environ, VERIF_FAIL_FAST="1")
+            r = sh([os.path.join(ROOT, "check"), p, "--tier", tier], cwd=ROOT, env=env)
             lines = r.stdout.splitlines()
             viol = [l for l in lines if l.startswith("VIOLATION")]
             sigs = [l.strip() for l in lines if l.strip().startswith("sig=")]
@@ -62,7 +65,7 @@ def main():
         for f in os.listdir(keep):
             shutil.copy2(os.path.join(keep, f), evdir)
         shutil.rmtree(keep)
-    json.dump({"ran": time.strftime("%Y-%m-%d %H:%M:%S"), "tier": tier, "patch": os.path.basename(patch), "results": results},
+    json.dump({"ran": time.strftime("%Y-%m-%d %H:%M:%S"), "tier": tier, "mode": "full" if full else "fail-fast", "patch": os.path.basename(patch), "results": results},
               open(os.path.join(d, "result.json"), "w"), indent=1)
     return 0
 
